@@ -48,6 +48,10 @@ class SSeries:
         o = o.arr if isinstance(o, SSeries) else o
         return SSeries(ops.binop(op, o, self.arr) if rev else ops.binop(op, self.arr, o))
 
+    def __mul__(self, o): return self._bin(o, "Mult")
+    def __rmul__(self, o): return self._bin(o, "Mult", True)
+    def __truediv__(self, o): return self._bin(o, "Div")
+    def __neg__(self): return SSeries(ops.unop("USub", self.arr))
     def __add__(self, o): return self._bin(o, "Add")
     def __radd__(self, o): return self._bin(o, "Add", True)
     def __sub__(self, o): return self._bin(o, "Sub")
@@ -66,6 +70,11 @@ class SFrame:
         if isinstance(k, str):
             return self.cols[k]
         raise Unsupported("DataFrame indexing other than by column name")
+
+    def __setitem__(self, k, v):
+        if not isinstance(k, str):
+            raise Unsupported("DataFrame assignment other than a whole column")
+        self.cols[k] = v if isinstance(v, SSeries) else SSeries(v)
 
     def length(self):
         return self.n if isinstance(self.n, int) else SV(self.n)
